@@ -6,6 +6,7 @@
 (* the records of real runs (OptObs.tla).                                  *)
 (*                                                                         *)
 (* Options are built by a PROGRAM, the way user code builds them:          *)
+(*    stmt i = [op |-> "new", typ, id, n]     (n = number of values in the bundle)                                              *)
 (*    stmt i = [op |-> "new", typ, id]        v_i := WithLambdaOption(typ{id}) | WithCallbacks(handler id)   (typ = "cb")       *)
 (*    stmt i = [op |-> "des", from, paths]    v_i := v_from.DesignateNodeWithPath(paths...)                                     *)
 (* and a call passes the values of some variables.  The rule reads the     *)
@@ -44,7 +45,9 @@ RECURSIVE SemPaths(_, _)
 SemPaths(prog, i) == IF prog[i].op = "new" THEN <<>> ELSE SemPaths(prog, prog[i].from) \o prog[i].paths
 RECURSIVE Root(_, _)
 Root(prog, i) == IF prog[i].op = "new" THEN i ELSE Root(prog, prog[i].from)
-SemOpt(prog, i) == [typ |-> prog[Root(prog, i)].typ, id |-> prog[Root(prog, i)].id, paths |-> SemPaths(prog, i)]
+\* an option carries a BUNDLE of n values (WithLambdaOption(v1, v2, v3)): the values of option "o1" are "o1", "o1.2", "o1.3"
+Val(id, j) == IF j = 1 THEN id ELSE id \o "." \o ToString(j)
+SemOpt(prog, i) == [typ |-> prog[Root(prog, i)].typ, id |-> prog[Root(prog, i)].id, n |-> prog[Root(prog, i)].n, paths |-> SemPaths(prog, i)]
 
 \* ------------------------------------------------------------------ Delivered / error, per the statement
 Units(c) == Range(c.units)
@@ -70,9 +73,14 @@ MayFire(o, n) == o.typ = "cb" /\ (Len(o.paths) = 0 \/ \E i \in 1..Len(o.paths) :
 CallOpts(c, k) == [j \in 1..Len(c.calls[k]) |-> SemOpt(c.prog, c.calls[k][j])]
 ExpErr(c, k) == \E j \in 1..Len(c.calls[k]) : OptBad(c, CallOpts(c, k)[j])
 RECURSIVE SumTimes(_, _, _, _)
-SumTimes(c, os, n, id) == IF os = <<>> THEN 0
-                          ELSE (IF Head(os).id = id THEN Times(c, Head(os), n) ELSE 0) + SumTimes(c, Tail(os), n, id)
-AllIds(c) == {c.prog[i].id : i \in {j \in 1..Len(c.prog) : c.prog[j].op = "new"}}
+\* how often value v must arrive at leaf n: every delivery of an option brings its whole bundle
+SumTimes(c, os, n, v) == IF os = <<>> THEN 0
+                         ELSE (IF \E j \in 1..Head(os).n : Val(Head(os).id, j) = v THEN Times(c, Head(os), n) ELSE 0) + SumTimes(c, Tail(os), n, v)
+AllIds(c) == UNION {{Val(c.prog[i].id, j) : j \in 1..c.prog[i].n} : i \in {j \in 1..Len(c.prog) : c.prog[j].op = "new"}}
+\* ... in order: a non-first value of a bundle directly follows its predecessor
+BundleOrderOK(c, got) ==
+  \A i \in 1..Len(got) : \A k \in {x \in 1..Len(c.prog) : c.prog[x].op = "new"} : \A j \in 2..c.prog[k].n :
+     got[i] = Val(c.prog[k].id, j) => (i > 1 /\ got[i - 1] = Val(c.prog[k].id, j - 1))
 
 \* ------------------------------------------------------------------ the rule
 Idle == [id |-> "", c |-> [units |-> <<>>, prog |-> <<>>, calls |-> <<>>, intr |-> "", intrafter |-> FALSE], bad |-> "", seen |-> {}, ret |-> <<>>]
@@ -86,10 +94,11 @@ Node(S, e) ==
            os == CallOpts(c, e.call)
            ids == AllIds(c) \cup Range(e.got) \cup Range(e.cbs)
        IN IF <<e.call, e.u>> \in S.seen THEN Bad(S, "node-ran-twice")
-          ELSE IF \E id \in Range(e.got) : id \notin {os[j].id : j \in {x \in 1..Len(os) : os[x].typ # "cb"}}
+          ELSE IF \E id \in Range(e.got) : id \notin UNION {{Val(os[j].id, x) : x \in 1..os[j].n} : j \in {x \in 1..Len(os) : os[x].typ # "cb"}}
                THEN Bad(S, "node-received-an-option-of-another-call-or-unknown")
           ELSE IF \E id \in ids : Count(e.got, id) > SumTimes(c, os, n, id) THEN Bad(S, "option-reached-a-node-it-does-not-address")
           ELSE IF \E id \in ids : Count(e.got, id) < SumTimes(c, os, n, id) THEN Bad(S, "option-did-not-reach-an-addressed-node")
+          ELSE IF ~BundleOrderOK(c, e.got) THEN Bad(S, "option-bundle-not-delivered-whole-and-in-order")
           ELSE IF \E h \in Range(e.cbs) : ~\E j \in 1..Len(os) : os[j].id = h /\ MayFire(os[j], n)
                THEN Bad(S, "callback-fired-for-a-node-it-does-not-address")
           ELSE IF \E j \in 1..Len(os) : MustFire(os[j], n) /\ os[j].id \notin Range(e.cbs)
